@@ -227,3 +227,20 @@ Section Rejects.
         end
     end.
 End Rejects.
+
+(** * Field occurrences of a document before conversion (same walk as [cfields]) *)
+Fixpoint sfields (fuel : nat) (frags : list (string * list sel)) (s : sel) {struct fuel}
+  : list (string * list (string * lit)) :=
+  match fuel with
+  | O => []
+  | S k =>
+      match s with
+      | SField f args => [(f, args)]
+      | SSpread n => match lookup n frags with Some b => flat_map (sfields k frags) b | None => [] end
+      | SInline b => flat_map (sfields k frags) b
+      end
+  end.
+
+(** Occurrence by occurrence: the same field, its arguments converted under the variable map [vars']. *)
+Definition occ_rel (vars' : list (string * jv)) (sf : string * list (string * lit)) (cf : string * jv) : Prop :=
+  fst sf = fst cf /\ args_to_json vars' (snd sf) = Ok (snd cf).
